@@ -17,23 +17,26 @@ THEOREMS = ["C02_op_table_sound", "C02_op_assign_keeps_kind", "C02_un_table_soun
             "C02_eq_complex_compat"]
 
 
-def run_generated(ctx, binary, n_programs, size):
+def run_generated(ctx, binary, n_programs, size, fault=False):
     import random
     base = ctx.mktemp()
     jobs = []
     for i in range(n_programs):
         seed = ctx.rng.getrandbits(48)
-        src, meta = c02_gen.generate(random.Random(seed), size)
+        src, meta = c02_gen.generate(random.Random(seed), size, fault=fault)
         jobs.append((seed, src, meta))
     results = programs.pmap(lambda j: cc.run_src(binary, j[1], base, timeout=60), jobs)
     st = {"programs": len(jobs), "accepted": 0, "rejected": 0, "completed": 0, "allowed_failures": {}, "compiler_panics": 0,
-          "observations": 0, "violating_programs": 0, "timeouts": 0}
+          "observations": 0, "violating_programs": 0, "timeouts": 0, "faults_placed": 0, "faulty_rejected": 0, "faulty_accepted": 0}
     dist = {}
     reject_reasons = {}
     labels = set()
     for (seed, src, meta), res in zip(jobs, results):
         for k, v in meta["dist"].items():
             dist[k] = dist.get(k, 0) + v
+        if meta.get("fault"):
+            st["faults_placed"] += 1
+            st["faulty_rejected" if res.verdict == "rejected" else "faulty_accepted"] += 1
         if res.verdict == "rejected":
             st["rejected"] += 1
             d = cc.canon_msg(res.diag)
@@ -59,7 +62,7 @@ def run_generated(ctx, binary, n_programs, size):
         if finds:
             st["violating_programs"] += 1
         for cls, what in finds:
-            ctx.report(cls, what, {"generator_seed": seed, "size": size, "program": src, "observed": res.brief(),
+            ctx.report(cls, what, {"generator_seed": seed, "size": size, "fault_injected": meta.get("fault"), "program": src, "observed": res.brief(),
                                    "how": "write `program` to m.ms in an empty directory; MSCRIPT_VERIF_TYPED_PRINT=1 mscript run m.ms -q"})
     if len(ctx.cov["samples"]) < 6 and jobs:
         ctx.sample({"generated_program_head": jobs[0][1][:600], "verdict": results[0].verdict})
@@ -108,12 +111,16 @@ def run(ctx):
     t2 = time.time()
     cat = run_catalogue(ctx, binary)
     st_c, dist = run_generated(ctx, binary, 1500 if ctx.quick() else 12000, 40 if ctx.quick() else 60)
+    # the same generator with ONE typed position per program given an expression of another kind: a compiler that
+    # lost a check accepts it, and the wrong kind is then observed (programs a correct compiler rejects say nothing)
+    st_f, dist_f = run_generated(ctx, binary, 1500 if ctx.quick() else 12000, 40, fault=True)
     t3 = time.time()
     ctx.cov["catalogue"] = cat
     ctx.cov["generator"] = st_c
+    ctx.cov["generator_fault_injection"] = st_f
     ctx.cov["generator_distribution"] = dict(sorted(dist.items()))
     ctx.cov["wall_parts_s"] = {"optable": round(t1 - t0, 1), "compat": round(t2 - t1, 1), "programs": round(t3 - t2, 1)}
-    ctx.cov["evaluations"] = n_a + n_b + cat["entries"] + st_c["programs"]
+    ctx.cov["evaluations"] = n_a + n_b + cat["entries"] + st_c["programs"] + st_f["programs"]
     ctx.cov["distinct_nontrivial"] = st_a["accepted"] + st_b["accepted"] + st_c["completed"] + cat["accepted"]
     ctx.cov["traces_validated_against_impl"] = n_a + n_b
     ctx.cov["exhaustive"] = True
@@ -132,5 +139,5 @@ def run(ctx):
     ctx.assumptions = ["`nil` is admissible for every static type (the property speaks of values other than nil; use of nil is a dynamic failure the language defines)",
                        "elements of lists / maps / objects are observed through the access paths the programs take, not by walking values",
                        "an annotation cannot spell the type of the literal `nil` nor (after fix 1164471) the empty fixed-shape list: hypothesis `clean` of the compatibility theorems"]
-    spec_fail = st_a["spec_fail"] > 0 or st_c["violating_programs"] > 0 or any(v[3] for v in ctx.viol)
+    spec_fail = st_a["spec_fail"] > 0 or st_c["violating_programs"] > 0 or st_f["violating_programs"] > 0 or any(v[3] for v in ctx.viol)
     core.proof_or_search(ctx, ok, THEOREMS, spec_fail)
